@@ -1,5 +1,5 @@
 -------------------------- MODULE MC_Trace_Persist --------------------------
 EXTENDS Trace_Persist
 KA_none == {}
-AllModes == {"path", "fresh", "kept"}
+AllModes == {"path", "pathlib", "fresh", "kept"}
 =============================================================================
